@@ -343,9 +343,12 @@ impl<'a> QGen<'a> {
         }
     }
 
-    fn q1(&self, n: &str) -> String {
+    fn q1(&self, rng: &mut Rng, n: &str) -> String {
         if self.safe_quotes && n.contains('\'') {
             quote_double(n)
+        } else if self.fancy && n.contains('/') && rng.chance(1, 3) {
+            // the other legal spelling of a solidus
+            quote_single(n).replace('/', "\\/")
         } else {
             quote_single(n)
         }
@@ -373,6 +376,15 @@ impl<'a> QGen<'a> {
             }
         } else if self.fancy && rng.chance(1, 4) {
             quote_double(&n)
+        } else if self.fancy && n.contains('/') && rng.chance(1, 2) {
+            // the other legal spelling of a solidus
+            quote_single(&n).replace('/', "\\/")
+        } else if self.fancy && rng.chance(1, 25) && n.chars().next().map(|c| c.is_ascii_alphanumeric()).unwrap_or(false) {
+            // the first character written as a \uXXXX escape it does not need
+            let first = n.chars().next().unwrap();
+            let rest: String = n.chars().skip(1).collect();
+            let q = quote_single(&rest);
+            format!("'\\u{:04x}{}", first as u32, &q[1..])
         } else {
             quote_single(&n)
         }
@@ -434,7 +446,7 @@ impl<'a> QGen<'a> {
                 if shorthand_ok(&n) {
                     format!(".{}", n)
                 } else {
-                    format!("[{}]", self.q1(&n))
+                    format!("[{}]", self.q1(rng, &n))
                 }
             }
             1 => ".*".to_string(),
@@ -456,7 +468,7 @@ impl<'a> QGen<'a> {
                     if shorthand_ok(&n) {
                         format!("..{}", n)
                     } else {
-                        format!("..[{}]", self.q1(&n))
+                        format!("..[{}]", self.q1(rng, &n))
                     }
                 }
                 1 => "..*".to_string(),
@@ -482,7 +494,7 @@ impl<'a> QGen<'a> {
                     s.push('.');
                     s.push_str(&nm);
                 } else {
-                    s.push_str(&format!("[{}]", self.q1(&nm)));
+                    s.push_str(&format!("[{}]", self.q1(rng, &nm)));
                 }
             } else {
                 s.push_str(&format!("[{}]", rng.range(-2, 3)));
@@ -658,7 +670,7 @@ impl<'a> QGen<'a> {
                         if shorthand_ok(&n) {
                             format!(".{}", n)
                         } else {
-                            format!("[{}]", self.q1(&n))
+                            format!("[{}]", self.q1(rng, &n))
                         }
                     })
                 } else {
